@@ -29,7 +29,15 @@ def shrink_schema(schema: dict) -> Any:
 
 def strip_own(pkts: dict[str, str]) -> dict[str, str]:
     """Drop the gateways' own signature (7FFF puzzle) packets: live traffic of each port, not part of what is restored."""
-    return {k: v for k, v in pkts.items() if " 7FFF " not in v}
+    return {k: canon_line(v) for k, v in pkts.items() if " 7FFF " not in v}
+
+
+def canon_line(line: str) -> str:
+    """The packet proper: RSSI + frame. The trailing '# <header> (<ctx>)' annotation that repr(pkt) appends is derived data:
+    for a one-element 000A/22C9 that follows an array packet within 3 s it depends on the *preceding* packet
+    (dispatcher.detect_array_fragment), which a restore - that replays only the latest packets - cannot reproduce. The
+    statement is about the set of packets, so annotations are compared separately and only tallied."""
+    return line.split(" # ")[0].rstrip()
 
 
 def live_only(pkts: dict[str, str], gwy: Any) -> dict[str, str]:
@@ -132,8 +140,8 @@ async def _scenario(loop: Any, hist: dict) -> dict:
                     pt["pkts_equal"] = True
                     pt["expired_only_diff"] = True
                 if not pt["pkts_equal"]:
-                    only_a = sorted(set(pkts_a.items()) - set(pkts_b.items()))
-                    only_b = sorted(set(pkts_b.items()) - set(pkts_a.items()))
+                    only_a = sorted(set(strip_own(pkts_a).items()) - set(pkts_b.items()))
+                    only_b = sorted(set(pkts_b.items()) - set(strip_own(pkts_a).items()))
                     pt["diff"] = {"only_in_source": only_a[:3], "only_in_restored": only_b[:3], "n": (len(only_a), len(only_b))}
                 pt["schema_equal"] = shrink_schema(schema_b) == shrink_schema(schema_a)
                 if not pt["schema_equal"]:
@@ -147,9 +155,10 @@ async def _scenario(loop: Any, hist: dict) -> dict:
                 await gwy_a._restore_cached_packets(dict(pkts_a))
                 await vclock.quiesce()
                 schema_a2, pkts_a2 = gwy_a.get_state(include_expired=inc)
-                pt["self_restore_same"] = live_only(pkts_a2, gwy_a) == live_only(pkts_a, gwy_a)
+                pt["self_restore_same"] = live_only(strip_own(pkts_a2), gwy_a) == live_only(strip_own(pkts_a), gwy_a)
+                pt["annotation_only_diff"] = pt["self_restore_same"] and live_only(pkts_a2, gwy_a) != live_only(pkts_a, gwy_a)
                 if not pt["self_restore_same"]:
-                    pt["self_diff"] = (sorted(set(pkts_a.items()) - set(pkts_a2.items()))[:3], sorted(set(pkts_a2.items()) - set(pkts_a.items()))[:3])
+                    pt["self_diff"] = (sorted(set(strip_own(pkts_a).items()) - set(strip_own(pkts_a2).items()))[:3], sorted(set(strip_own(pkts_a2).items()) - set(strip_own(pkts_a).items()))[:3])
                 res["points"].append(pt)
                 await stack.stop_gateway(gwy_b)
                 gateways.remove(gwy_b)
@@ -215,7 +224,7 @@ def explore(job: dict) -> dict:
 
     @st.composite
     def case(draw: Any) -> dict:
-        h = draw(history(max_len=100))
+        h = draw(history(max_len=100, synthetic=False))  # the statement quantifies over histories derived from the real logs
         n = len(h["frames"])
         return {"frames": h["frames"], "system": h["system"], "mutations": h["mutations"], "eavesdrop": draw(st.integers(0, 2)) == 0,
                 "include_expired": draw(st.booleans()), "gap": draw(st.sampled_from((0.02, 0.5, 5.0))),
@@ -233,6 +242,8 @@ def explore(job: dict) -> dict:
             col.violation(sig, hist, detail)
         if loop.exc_contexts:
             col.note("loop exceptions (recorded)", len(loop.exc_contexts))
+        if any(p.get("annotation_only_diff") for p in res["points"]):
+            col.note("a packet's '# header (ctx)' annotation differs after restore (array-fragment detection depends on the preceding packet): tallied")
         if any(p.get("expired_only_diff") for p in res["points"]):
             col.note("restored state differs from the source only in already-expired packets (tallied)")
 
